@@ -12,6 +12,8 @@
 //!   `<id>:c:<hex>` a chunk arrives on stream `<id>` (never empty), `<id>:F` FIN, `<id>:R<code>` RESET_STREAM,
 //!   `<id>:S<code>` peer STOP_SENDING for OUR send half of `<id>` (the next write fails with StreamTerminated),
 //!   `X<code>` peer closes the connection with an application code, `T` idle timeout, `I` transport internal error,
+//!   `XU` transport error of a kind h3 does not know (ConnectionErrorIncoming::Undefined), `<id>:K` the receive half of
+//!   `<id>` fails with StreamErrorIncoming::Unknown,
 //!   `G<n>` grant `n` more credits for opening uni streams, `H<n>` same for bidi streams,
 //!   `D:<hex>` a QUIC datagram with that payload arrives,
 //!   `<id>:Z<n>` the next n poll_finish calls on our send half of `<id>` return Pending; `ZS` / `ZU` make poll_finish report a
@@ -58,6 +60,8 @@ pub enum ConnLoss {
     AppClose(u64),
     Timeout,
     Internal,
+    /// `XU`: the transport fails with an error h3 knows nothing about (ConnectionErrorIncoming::Undefined)
+    Undefined,
 }
 
 impl ConnLoss {
@@ -66,6 +70,10 @@ impl ConnLoss {
             ConnLoss::AppClose(c) => ConnectionErrorIncoming::ApplicationClose { error_code: *c },
             ConnLoss::Timeout => ConnectionErrorIncoming::Timeout,
             ConnLoss::Internal => ConnectionErrorIncoming::InternalError("sim".into()),
+            ConnLoss::Undefined => ConnectionErrorIncoming::Undefined(std::sync::Arc::new(std::io::Error::new(
+                std::io::ErrorKind::Other,
+                "sim undefined",
+            ))),
         }
     }
 }
@@ -75,6 +83,8 @@ pub enum Ev {
     Chunk(Bytes),
     Fin,
     Reset(u64),
+    /// `<id>:K`: the receive side fails with StreamErrorIncoming::Unknown (sticky, like a reset)
+    Unknown,
 }
 
 #[derive(Default)]
@@ -189,7 +199,7 @@ impl World {
         }
         let s = self.stream(id);
         // terminal events are sticky: nothing is queued after them
-        if matches!(s.rx.back(), Some(Ev::Fin) | Some(Ev::Reset(_))) {
+        if matches!(s.rx.back(), Some(Ev::Fin) | Some(Ev::Reset(_)) | Some(Ev::Unknown)) {
             return;
         }
         s.rx.push_back(ev);
@@ -281,11 +291,17 @@ pub fn apply_event(w: &Shared, ev: &str) -> bool {
     if let Some(r) = ev.strip_prefix('B') {
         return num(r).map(|id| g.new_peer_bidi(id)).is_some();
     }
-    if let Some(r) = ev.strip_prefix('X') {
-        return num(r).map(|c| g.lose(ConnLoss::AppClose(c))).is_some();
+    if ev != "XU" {
+        if let Some(r) = ev.strip_prefix('X') {
+            return num(r).map(|c| g.lose(ConnLoss::AppClose(c))).is_some();
+        }
     }
     if ev == "T" {
         g.lose(ConnLoss::Timeout);
+        return true;
+    }
+    if ev == "XU" {
+        g.lose(ConnLoss::Undefined);
         return true;
     }
     if ev == "ZS" {
@@ -343,6 +359,10 @@ pub fn apply_event(w: &Shared, ev: &str) -> bool {
         }
         Some("F") => {
             g.push(id, Ev::Fin);
+            true
+        }
+        Some("K") => {
+            g.push(id, Ev::Unknown);
             true
         }
         Some(x) if x.starts_with('R') => num(&x[1..]).map(|c| g.push(id, Ev::Reset(c))).is_some(),
@@ -542,6 +562,7 @@ impl quic::RecvStream for SimRecv {
             }
             Some(Ev::Fin) => Poll::Ready(Ok(None)),
             Some(Ev::Reset(c)) => Poll::Ready(Err(StreamErrorIncoming::StreamTerminated { error_code: c })),
+            Some(Ev::Unknown) => Poll::Ready(Err(StreamErrorIncoming::Unknown("sim unknown stream error".into()))),
             None => {
                 if let Some(l) = lost {
                     return Poll::Ready(Err(StreamErrorIncoming::ConnectionErrorIncoming {
